@@ -90,7 +90,7 @@ func runAPCase(t *testing.T, m *Model, rng *RNG, c apCase, replay bool) (goRes s
 					for i, x := range cr.CName().NameString {
 						cs[i] = XS(x)
 					}
-					res = fmt.Sprintf("ok %s %s %d", List(cs), XS(cr.Domain()), cr.ValidUntil().UnixNano()/1000)
+					res = fmt.Sprintf("ok %s %s %d", List(cs), XS(cr.Domain()), Micros(cr.ValidUntil()))
 				}
 			})
 			if p != "" {
@@ -174,6 +174,7 @@ func c01Defects() []defect {
 		{"tktrealm", func(c *apCase, r *RNG) { c.tktRealm = "OTHER.REALM" }},
 		{"realm-other", func(c *apCase, r *RNG) { c.realm = "OTHER.REALM" }},
 		{"tktsname", func(c *apCase, r *RNG) { c.tktSName = []string{"HTTP", "other.test.gokrb5"} }},
+		{"tktsname-joined", func(c *apCase, r *RNG) { c.tktSName = []string{"HTTP/host.test.gokrb5"} }},
 		{"tktsname-prefix", func(c *apCase, r *RNG) { c.tktSName = []string{"HTTP"} }},
 		{"tktsname-empty", func(c *apCase, r *RNG) { c.tktSName = []string{} }},
 		{"sname-host", func(c *apCase, r *RNG) { c.sname = []string{"host", "host.test.gokrb5"} }},
@@ -188,6 +189,13 @@ func c01Defects() []defect {
 		{"ctime=now-d-1us", func(c *apCase, r *RNG) { c.ctimeOff = -c.skew - time.Microsecond }},
 		{"ctime=now+d", func(c *apCase, r *RNG) { c.ctimeOff = c.skew }},
 		{"ctime=now+d+1us", func(c *apCase, r *RNG) { c.ctimeOff = c.skew + time.Microsecond }},
+		// beyond the range of a time.Duration (292 years): Sub saturates, a hand-made absolute value overflows
+		{"ctime=+400y", func(c *apCase, r *RNG) { c.ctimeYears = 400 }},
+		{"ctime=+7900y", func(c *apCase, r *RNG) { c.ctimeYears = 7900 }},
+		{"ctime=-400y", func(c *apCase, r *RNG) { c.ctimeYears = -400 }},
+		{"start=+400y", func(c *apCase, r *RNG) { c.startYears = 400; c.endYears = 401 }},
+		{"end=+400y", func(c *apCase, r *RNG) { c.endYears = 400 }},
+		{"end=-400y", func(c *apCase, r *RNG) { c.endYears = -400; c.startYears = -401 }},
 		{"fliptkt", func(c *apCase, r *RNG) { c.flipTkt = r.Intn(4000) }},
 		{"trunctkt", func(c *apCase, r *RNG) { c.truncTkt = 1 + r.Intn(3) }},
 		{"trunctkt-all", func(c *apCase, r *RNG) { c.truncTkt = 100000 }},
